@@ -34,7 +34,7 @@ Definition subsetb (l m : list uid) : bool := forallb (fun x => memN x m) l.
 
 (* every listening instance only references actions of `acts` *)
 Definition refs_okb (acts : list uid) (insts : list (uid * (bool * list uid))) : bool :=
-  forallb (fun p => if fst (snd p) then subsetb (snd (snd p)) acts else true) insts.
+  forallb (fun p : uid * (bool * list uid) => if fst (snd p) then subsetb (snd (snd p)) acts else true) insts.
 
 Definition astep (s : astate) (o : aop) : option astate :=
   match o with
@@ -73,10 +73,11 @@ Definition inst_sameb (p q : bool * list uid) : bool :=
   Bool.eqb (fst p) (fst q) && list_sameb (snd p) (snd q).
 
 Definition insts_subb (l m : list (uid * (bool * list uid))) : bool :=
-  forallb (fun p => match aget N.eqb m (fst p) with
-                    | Some q => inst_sameb (snd p) q
-                    | None => false
-                    end) l.
+  forallb (fun p : uid * (bool * list uid) =>
+             match aget N.eqb m (fst p) with
+             | Some q => inst_sameb (snd p) q
+             | None => false
+             end) l.
 
 Definition astate_sameb (s t : astate) : bool :=
   list_sameb (a_actions s) (a_actions t)
